@@ -622,6 +622,7 @@ func c18Mutate(r *rand.Rand, text string) string {
 		for k := 0; k < 2; k++ { // twice: adjacent occurrences share a separator
 			body = re.ReplaceAllString(body, "${1}"+n+suffix+"${2}")
 		}
+		body = regexp.MustCompile(`([^A-Za-z0-9_.'"/\\-])`+regexp.QuoteMeta(n)+`(_?-?[oO]pt[^A-Za-z0-9_])`).ReplaceAllString(body, "${1}"+n+suffix+"${2}")
 	}
 	return head + body + tail
 }
@@ -684,7 +685,7 @@ func c18RandGrammar(r *rand.Rand, name string, findings bool) (string, []string)
 		opts = append(opts, "eventFields", "cancellable", "recursiveLookaheads", "genSelector", "writeBison", "debugParser", "tokenStream")
 	}
 	if lang == "ts" {
-		opts = append(opts, "eventFields", "genSelector", "tokenStream")
+		opts = append(opts, "genSelector", "tokenStream")
 	}
 	r.Shuffle(len(opts), func(a, b int) { opts[a], opts[b] = opts[b], opts[a] })
 	for _, o := range opts[:r.Intn(5)] {
